@@ -15,6 +15,10 @@ ROOT = os.path.dirname(os.path.abspath(__file__))
 REPO = os.environ.get("VERIF_REPO", "/repo")
 # development runs against another checkout (VERIF_REPO) keep their scratch files and evidence apart
 ALT = "" if REPO == "/repo" else "-alt"
+# development: VERIF_ONLY=Entry1,Entry2 runs only those harness entries (scratch files and evidence kept apart)
+ONLY = [x for x in os.environ.get("VERIF_ONLY", "").split(",") if x]
+if ONLY:
+    ALT += "-only"
 GOENV = dict(os.environ, GOFLAGS="-mod=mod", GOPROXY="off", GOSUMDB="off", GOTOOLCHAIN="local")
 GOSMT = os.path.join(ROOT, "bin", "gosmt")
 
@@ -247,6 +251,9 @@ def cmd_run(prop, tier, seed):
         if f.startswith(prop + "-"):
             os.remove(os.path.join(ROOT, "replays", f))
     jobs = spec["jobs"]
+    if ONLY:
+        jobs = [dict(j, entries=[e for e in j["entries"] if e["name"] in ONLY]) for j in jobs]
+        jobs = [j for j in jobs if j["entries"]]
     par = min(len(jobs), 4)
     # jobs differ a lot in length: oversubscribe 2x so that the longest one is not left with 4 workers
     workers = max(4, min(16, 32 // max(par, 1)))
